@@ -232,6 +232,9 @@ static Value genNetw(vg::Rng &r) {
   v.set("n", n).set("nets", nets).set("model", r.in(0, 3)).set("tgt4", tgt).set("str4", str);
   v.set("tol", r.pick(std::vector<int>{6, 6, 4}));   // CG tolerance 1e-<tol>
   v.set("cut4", r.pick(std::vector<int>{1, 4, 40})).set("eps4", r.pick(std::vector<int>{1, 2, 8}));
+  // how the model is built: 0 = addNet(cells, offsets, weight) with fixed pins as cell -1; 1 = addNet(cells, offsets, minPin, maxPin, weight);
+  // 2 = NetModel::xTopology of a Circuit with setNetWeights (coordinates x 4 so that quarter offsets become integers)
+  v.set("via", r.in(0, 2));
   return v;
 }
 
@@ -452,20 +455,104 @@ static void runDensity(int run, const Value &in) {
 
 static NetModel buildNetModel(const Value &in, double scale) {
   int n = (int)in["n"].asInt();
-  NetModel m(n);
+  int via = in.has("via") ? (int)in["via"].asInt() : 0;
   const Value &nets = in["nets"];
+  if (via == 2) {
+    // through the public path of the placer: a Circuit whose fixed pins are fixed cells, weights set with setNetWeights
+    int nFixed = 0;
+    for (size_t k = 0; k < nets.size(); ++k)
+      for (size_t j = 0; j < nets[k]["pins"].size(); ++j)
+        if (nets[k]["pins"][j]["c"].asInt() == 0) ++nFixed;
+    Circuit c(n + nFixed);
+    std::vector<int> w(n + nFixed, 4), h(n + nFixed, 4), x(n + nFixed, 0), y(n + nFixed, 0);
+    std::vector<bool> fixed(n + nFixed, false);
+    std::vector<float> weights;
+    int f = n;
+    std::vector<std::vector<int>> nc, nx, ny;
+    for (size_t k = 0; k < nets.size(); ++k) {
+      std::vector<int> cells, xo, yo;
+      const Value &pins = nets[k]["pins"];
+      for (size_t j = 0; j < pins.size(); ++j) {
+        int cell = (int)pins[j]["c"].asInt();
+        int o4 = (int)pins[j]["o4"].asInt();
+        if (cell == 0) {
+          fixed[f] = true;
+          w[f] = 0;
+          h[f] = 0;
+          x[f] = o4;
+          cells.push_back(f++);
+          xo.push_back(0);
+        } else {
+          cells.push_back(cell - 1);
+          xo.push_back(o4 + 2);  // centre offset of a cell of width 4 is 2
+        }
+        yo.push_back(0);
+      }
+      nc.push_back(cells);
+      nx.push_back(xo);
+      ny.push_back(yo);
+      weights.push_back((float)(nets[k]["w4"].asInt() * 0.25 * scale));
+    }
+    c.setCellWidth(w);
+    c.setCellHeight(h);
+    c.setCellX(x);
+    c.setCellY(y);
+    c.setCellIsFixed(fixed);
+    c.setupRows(Rectangle(-4096, 4096, 0, 8), 4);
+    for (size_t k = 0; k < nc.size(); ++k) c.addNet(nc[k], nx[k], ny[k]);
+    c.setNetWeights(weights);
+    NetModel full = NetModel::xTopology(c);
+    // the fixed cells are not variables of the instance: rebuild on the n movable cells only (same nets, same order)
+    NetModel m(n);
+    for (int k = 0; k < full.nbNets(); ++k) {
+      std::vector<int> cells;
+      std::vector<float> offs;
+      for (int j = 0; j < full.nbPins(k); ++j) {
+        cells.push_back(full.pinCell(k, j));
+        offs.push_back(full.pinOffset(k, j) * 0.25f);
+      }
+      m.addNet(cells, offs, full.netWeight(k));
+    }
+    m.check();
+    return m;
+  }
+  NetModel m(n);
   for (size_t k = 0; k < nets.size(); ++k) {
     std::vector<int> cells;
     std::vector<float> offs;
     const Value &pins = nets[k]["pins"];
+    float minPin = std::numeric_limits<float>::infinity(), maxPin = -std::numeric_limits<float>::infinity();
     for (size_t j = 0; j < pins.size(); ++j) {
-      cells.push_back((int)pins[j]["c"].asInt() - 1);   // 0 -> -1 = fixed pin
-      offs.push_back((float)pins[j]["o4"].asInt() * 0.25f);
+      int cell = (int)pins[j]["c"].asInt() - 1;   // 0 -> -1 = fixed pin
+      float off = (float)pins[j]["o4"].asInt() * 0.25f;
+      if (via == 1 && cell == -1) {
+        minPin = std::min(minPin, off);
+        maxPin = std::max(maxPin, off);
+        continue;
+      }
+      cells.push_back(cell);
+      offs.push_back(off);
     }
-    m.addNet(cells, offs, (float)(nets[k]["w4"].asInt() * 0.25 * scale));
+    float weight = (float)(nets[k]["w4"].asInt() * 0.25 * scale);
+    if (via == 1) m.addNet(cells, offs, minPin, maxPin, weight);
+    else m.addNet(cells, offs, weight);
   }
   m.check();
   return m;
+}
+
+// the structure of the model as built (weights x 1024, offsets x 4): compared by TLC with the net list of the instance
+static Value modelToJson(const NetModel &m) {
+  Value a = Value::array();
+  for (int k = 0; k < m.nbNets(); ++k) {
+    Value pins = Value::array();
+    for (int j = 0; j < m.nbPins(k); ++j) {
+      pins.push(Value::object().set("c", (long long)m.pinCell(k, j) + 1).set("o4", (long long)std::llround((double)m.pinOffset(k, j) * 4.0)));
+    }
+    double w = (double)m.netWeight(k) * 1024.0;
+    a.push(Value::object().set("w1024", (long long)std::llround(w)).set("exact", w == std::floor(w)).set("pins", pins));
+  }
+  return a;
 }
 
 static Value bitsOf(const std::vector<float> &v) {
@@ -500,13 +587,20 @@ static void runNetw(int run, const Value &in) {
   };
   std::vector<float> b0, b1, b2;
   solveAll(1.0, b0, b1, b2);
+  long long via = in.has("via") ? in["via"].asInt() : 0;
+  {
+    Value bv = vt::ev("NetBuild");
+    bv.set("run", run).set("via", via).set("nets", in["nets"]).set("built", modelToJson(buildNetModel(in, 1.0)));
+    bv.set("built8", modelToJson(buildNetModel(in, 0.125)));   // all weights / 8: still multiples of 1/1024
+    vt::emit(bv);
+  }
   Value ev = vt::ev("NetSolve");
-  ev.set("run", run).set("n", n).set("nets", in["nets"]).set("x0", fix10(b0)).set("tol", in["tol"]);
+  ev.set("run", run).set("n", n).set("nets", in["nets"]).set("x0", fix10(b0)).set("tol", in["tol"]).set("via", via);
   bool finite = true;
   for (float f : b0) finite = finite && std::isfinite(f) && std::fabs(f) < 1e4;
   ev.set("finite", finite);
   vt::emit(ev);
-  static const int ks[] = {-3, -2, -1, 1, 2, 3, 4};
+  static const int ks[] = {-24, -16, -10, -3, -2, -1, 1, 2, 3, 4, 10, 20};
   for (int k : ks) {
     std::vector<float> s0, s1, s2;
     solveAll(std::ldexp(1.0, k), s0, s1, s2);
